@@ -328,7 +328,26 @@ def r15_5(ctx, R):
                 c = c[1]
             ok = False
             det = expr_str(c)
-            if c[0] == "const":
+
+            def _pos(c_):
+                if c_[0] == "proj" and c_[2] == (".0",):
+                    c_ = c_[1]
+                if c_[0] == "const":
+                    return int(c_[2]) >= 1
+                return c_[0] == "binop" and c_[1].startswith("Mul") and c_[3][0] == "const" and int(c_[3][2]) >= 2 and \
+                    c_[2][0] == "call" and (c_[2][1] or "").endswith("::capacity")
+            if c[0] == "multi":
+                from lib_flow import path_exprs
+                try:
+                    cs_ = path_exprs(b, fl, bb, t["args"][0])
+                except RuntimeError:
+                    cs_ = []
+                if cs_ and all(_pos(x_) for x_ in cs_):
+                    ok = True
+                    det = " | ".join(expr_str(x_) for x_ in cs_) + " (each >= 1)"
+            if ok:
+                pass
+            elif c[0] == "const":
                 ok = int(c[2]) >= 1
             elif c[0] == "binop" and c[1].startswith("Mul") and c[3][0] == "const" and int(c[3][2]) >= 2 and c[2][0] == "call" and (c[2][1] or "").endswith("::capacity"):
                 ok = True
